@@ -12,6 +12,7 @@ import (
 	"fmt"
 	"net/http"
 	"net/http/httptest"
+	"net/url"
 	"strconv"
 	"strings"
 
@@ -32,7 +33,10 @@ type fakeRegistry struct {
 	tags      map[string]string // tag -> digest
 	referrers map[string][]ocispec.Descriptor
 	api       bool
-	page      int
+	page      int    // server-side cap on a referrers page (0 = none)
+	split     bool   // pages may be shorter than both the cap and the requested n
+	filters   bool   // the artifactType query parameter is applied (and announced) by the registry
+	seed      uint64 // PRNG key of the page lengths
 	srv       *httptest.Server
 }
 
@@ -40,7 +44,8 @@ func (f *fakeRegistry) host() string { return strings.TrimPrefix(f.srv.URL, "htt
 
 func newFakeRegistry(g *dag.Graph, spec *caseSpec) *fakeRegistry {
 	f := &fakeRegistry{manifests: map[string]regEntry{}, blobs: map[string][]byte{}, tags: map[string]string{},
-		referrers: map[string][]ocispec.Descriptor{}, api: spec.Src == "remote-api", page: spec.Page}
+		referrers: map[string][]ocispec.Descriptor{}, api: spec.Src == "remote-api", page: spec.Page,
+		split: spec.Split, filters: spec.ServerFilter, seed: spec.PermSeed}
 	for _, n := range g.Nodes {
 		if n.Foreign() {
 			continue
@@ -138,17 +143,46 @@ func (f *fakeRegistry) ServeHTTP(w http.ResponseWriter, r *http.Request) {
 		}
 		ref := strings.TrimPrefix(p, "/v2/repo/referrers/")
 		all := f.referrers[ref]
+		q := r.URL.Query()
+		at := q.Get("artifactType")
+		if at != "" && f.filters {
+			// server-side filtering: exact comparison, announced in the response
+			var kept []ocispec.Descriptor
+			for _, d := range all {
+				if d.ArtifactType == at {
+					kept = append(kept, d)
+				}
+			}
+			all = kept
+			w.Header().Set("OCI-Filters-Applied", "artifactType")
+		}
 		from := 0
-		if s := r.URL.Query().Get("from"); s != "" {
+		if s := q.Get("from"); s != "" {
 			from, _ = strconv.Atoi(s)
 		}
 		if from > len(all) {
 			from = len(all)
 		}
-		to := len(all)
-		if f.page > 0 && from+f.page < len(all) {
-			to = from + f.page
-			w.Header().Set("Link", fmt.Sprintf("</v2/repo/referrers/%s?from=%d>; rel=\"next\"", ref, to))
+		// page length: at most the registry's cap and the requested n; a registry
+		// may serve fewer items than asked for and still have more (Link present)
+		limit := len(all) - from
+		if f.page > 0 && f.page < limit {
+			limit = f.page
+		}
+		if n, err := strconv.Atoi(q.Get("n")); err == nil && n > 0 && n < limit {
+			limit = n
+		}
+		if f.split && limit > 1 {
+			pr := common.NewRand(f.seed*7919 + uint64(from)*31 + uint64(len(all)))
+			limit = 1 + pr.Intn(limit)
+		}
+		to := from + limit
+		if to < len(all) {
+			link := fmt.Sprintf("/v2/repo/referrers/%s?from=%d", ref, to)
+			if at != "" {
+				link += "&artifactType=" + url.QueryEscape(at)
+			}
+			w.Header().Set("Link", fmt.Sprintf("<%s>; rel=\"next\"", link))
 		}
 		ix := ocispec.Index{MediaType: ocispec.MediaTypeImageIndex, Manifests: append([]ocispec.Descriptor{}, all[from:to]...)}
 		ix.SchemaVersion = 2
